@@ -2,6 +2,7 @@
 from checks import pure_fns, law_audits, full_step
 from checks import extra_audits
 from checks import api_cov
+from checks import scale_inv
 LEAN_TARGETS = ["QmcProofs.RefinementClusterExact", "QmcProps.C09", "drv_c09", "drv_step"]
 BINS = ["c09", "fullstep"]
 
@@ -119,4 +120,5 @@ def main(ck):
     law_audits.run(ck, groups=['refine', 'ideal', 'step', 'example'])   # idealised law of the executable model = the Markov kernel of the invariance theorems
     full_step.run(ck, modes=["ising"])   # whole real time steps (cluster updates with and without field), dev and release semantics
     api_cov.run(ck, "c09")   # otherwise unexercised public API, model-free oracles of this property
+    scale_inv.run(ck, "c09")   # power-of-two unit change: identical trajectory, energies exactly scaled (model-free twin oracle)
     return ck.finish(RULE)
